@@ -15,7 +15,8 @@ The range clause is proved at full strength (`build_spec`):
 i.e. ascending and non-overlapping ∧ every offset once with its type ∧ renew flag. Before repair 5958f14 its
 `ascending` conjunct was false of the code (user-entry ranges were emitted first, gap ranges afterwards:
 entries {10,11 accept} + gap [5,9] gave [10,11],[5,9]); the model is re-transcribed from the repaired loop and
-the old witness is kept as a regression `example` and in corpus/C12.
+the old witness is kept as a regression `example` and in corpus/C12. Since repair 4fd6241 the sorted gap ranges are
+merged first (`mergeGaps`), so the input may repeat or overlap gap ranges.
 -/
 namespace Props.C12
 open Model.C12 Spec.C12 Proof.C12
@@ -191,26 +192,30 @@ theorem build_renew_flag (es : List Entry) (gs : List Range) (hwf : wfInput es g
   have h := (wfInput_iff es gs).1 hwf
   simp only [renewOK, beq_iff_eq, build_fst, build_snd, List.any_reverse]
   rw [any_ty_foldl _ _ (fun t => t == 4), (interleave_perm _ _).any_eq]
-  have hg : (sortGaps gs).any (fun x => x.ty == 4) = false := by
+  have hg : (mergeGaps (sortGaps gs)).any (fun x => x.ty == 4) = false := by
     rw [List.any_eq_false]
-    intro g hg
-    have := (h.gaps g ((sortGaps_perm gs).mem_iff.1 hg)).2.2
+    intro x hx
+    obtain ⟨g, hgm, hty⟩ := mg_ty h x hx
+    have := (h.gaps g hgm).2.2
     simp; omega
   simp [hg, List.any_map, single, Function.comp_def]
 
 /-! ### buildAckRanges: ordering -/
 
-/-- **Ordering, full strength.** For every well-formed input the batch list is ascending and
-non-overlapping (every range `first ≤ last`, every range ends strictly before every later one starts). -/
+/-- **Ordering, full strength.** For every well-formed input — gap ranges may repeat or overlap (repair 4fd6241
+merges them); what `wfInput` still asks is `first ≤ last`, type gap/release, overlapping gap ranges of one type, and
+no decided user entry inside a gap range — the batch list is ascending and non-overlapping (every range
+`first ≤ last`, every range ends strictly before every later one starts). -/
 theorem build_ascending (es : List Entry) (gs : List Range) (hwf : wfInput es gs = true) :
     ascending (buildAckRanges es gs).1 = true := by
   have h := (wfInput_iff es gs).1 hwf
-  have hsg := sortGaps_ascList gs (fun g hg => (h.gaps g hg).2.1) h.disj
-  have hL : AscList (interleave (em es) (sortGaps gs)) :=
-    interleave_ascList _ _ (em_pairwise h) hsg (fun e he g hg => by
+  have hsg := mg_ascList h
+  have hL : AscList (interleave (em es) (mg gs)) :=
+    interleave_ascList _ _ (em_pairwise h) hsg (fun e he x hx hin => by
       obtain ⟨hee, hel⟩ := em_mem h e he
-      exact h.apart e hee hel g ((sortGaps_perm gs).mem_iff.1 hg))
-  have hall : AscRev ((interleave (em es) (sortGaps gs)).foldl coalesceRev []) :=
+      obtain ⟨g, hgm, g1, g2, _⟩ := mg_sound h x hx e.offset hin.1 hin.2
+      exact h.apart e hee hel g hgm ⟨g1, g2⟩)
+  have hall : AscRev ((interleave (em es) (mg gs)).foldl coalesceRev []) :=
     ascRev_foldl _ [] (by simp [AscRev]) hL (by simp)
   rw [build_fst]
   exact (ascending_iff _).2 ((ascList_reverse _).2 hall)
@@ -228,8 +233,17 @@ example : (buildAckRanges [⟨10, 1, 0, 1⟩, ⟨11, 1, 0, 1⟩] [⟨5, 9, 0, 1,
   have h1 : sortEntries [⟨10, 1, 0, 1⟩, ⟨11, 1, 0, 1⟩] = [⟨10, 1, 0, 1⟩, ⟨11, 1, 0, 1⟩] :=
     List.mergeSort_of_pairwise (by simp)
   have h2 : sortGaps [⟨5, 9, 0, 1, 0⟩] = [⟨5, 9, 0, 1, 0⟩] := List.mergeSort_of_pairwise (by simp)
-  simp only [buildAckRanges, h1, h2]
+  simp only [buildAckRanges, h1, h2, mergeGaps]
   decide
+
+/-- Regression (finding wire-gap-batch-duplicated, repaired by 4fd6241): the gap range [16,16] queued twice (a
+requeued gap acknowledgement and the gap of the re-acquisition), overlapping release ranges, and an accept above
+them: a well-formed input, each offset acknowledged once. -/
+example : wfInput [⟨30, 1, 0, 2⟩] [⟨16, 16, 0, 1, 0⟩, ⟨16, 16, 0, 2, 0⟩, ⟨20, 24, 0, 1, 2⟩, ⟨22, 27, 0, 2, 2⟩] = true := by decide
+
+example : mergeGaps [⟨16, 16, 0, 1, 0⟩, ⟨16, 16, 0, 2, 0⟩, ⟨20, 24, 0, 1, 2⟩, ⟨22, 27, 0, 2, 2⟩] =
+    [⟨16, 16, 0, 1, 0⟩, ⟨20, 27, 0, 1, 2⟩] := by
+  simp [mergeGaps]
 
 /-- Non-vacuity: out-of-order acks with a renew-then-accept duplicate, an undecided entry, a release run, a gap
 between the entries and one above them: a well-formed input with a gap below an entry. -/
